@@ -25,7 +25,14 @@ build_sched() {
     cat "$SCRATCH/overlay.log" "$SCRATCH/build.log" 2>/dev/null; echo "BUILD-FAILED (sched overlay) for $ID"; exit 2; }
 }
 
-needs_sched() { case "$1" in C10|C12|C13|C15) return 0;; *) return 1;; esac; }
+build_race() {
+  (cd "$HERE/mc" && go build -race -tags verif -o "$SCRATCH/verif-race" ./cmd/verif) >"$SCRATCH/build-race.log" 2>&1 || {
+    cat "$SCRATCH/build-race.log"; echo "BUILD-FAILED (race) for $ID"; exit 2; }
+  export VERIF_RACE_BIN="$SCRATCH/verif-race"
+}
+
+needs_sched() { case "$1" in C10|C11|C12|C13|C15) return 0;; *) return 1;; esac; }
+needs_race() { case "$1" in C10|C12|C13) return 0;; *) return 1;; esac; }
 
 if [ "$ID" = replay ]; then
   PROP=$(sed -n 's/.*"property": *"\([A-Z0-9]*\)".*/\1/p' "$ARG" | head -1)
@@ -36,7 +43,8 @@ fi
 
 if needs_sched "$ID"; then
   build_sched
-  GOMAXPROCS=${VERIF_GOMAXPROCS:-} "$SCRATCH/verif-sched" check "$ID" --tier "$ARG" --root "$HERE"
+  if needs_race "$ID"; then build_race; fi
+  "$SCRATCH/verif-sched" check "$ID" --tier "$ARG" --root "$HERE"
 else
   build_plain
   "$SCRATCH/verif" check "$ID" --tier "$ARG" --root "$HERE"
